@@ -1,0 +1,18 @@
+//go:build verif
+
+package common
+
+// Contracts for the goblvc verifier (see /verif/DESIGN.md). Comments only.
+//
+// C13: the Luhn check digit. Counting from the right, the digits at even distance
+// (0, 2, ...) are doubled, 9 being subtracted from a doubled digit above 9; the check digit
+// brings the total to a multiple of ten. luhnSum covers the k rightmost digits of the first n.
+//@ spec luhnD(d int, k int) int = ite(k % 2 == 0, ite(2 * d > 9, 2 * d - 9, 2 * d), d)
+//@ rec luhnSum(s string, n int, k int) int = ite(k <= 0, 0, luhnSum(s, n, k - 1) + luhnD(s_byte(s, n - k) - 48, k - 1))
+//@ spec luhnCheck(s string, n int) int = (10 - luhnSum(s, n, n) % 10) % 10
+//
+//@ func ComputeLuhnCheckDigit(number) (r)
+//@   requires forall j int :: 0 <= j && j < len(number) ==> s_byte(number, j) >= 48 && s_byte(number, j) <= 57
+//@   requires len(number) <= 1000000
+//@   ensures [digit] len(r) == 1 && s_byte(r, 0) == 48 + luhnCheck(number, len(number))
+//@   loop 1 invariant 0 <= pos && pos <= len(number) && i == len(number) - 1 - pos && sum == luhnSum(number, len(number), pos) && sum >= 0 && sum <= 9 * pos
